@@ -243,7 +243,8 @@ pub fn c10(tier: Tier) -> i32 {
     rep.absorb("U-long-runs", "runs of 1-9, 125-131, 252-260, 509-516, 767-770, 1023-1025 and 65535-65538 quotes / apostrophes, alone and next to a letter, a backslash, a newline, a second run and the other quote", total, true, t0, acc);
     // vacuity: every style must have been offered at least once
     for style in ["value:literal", "value:ml_literal", "value:basic_pretty", "value:ml_basic_pretty", "key:unquoted", "key:literal", "key:basic_pretty"] {
-        if rep.acc.hist.get(style).copied().unwrap_or(0) == 0 {
+        // (only a run WITHOUT violations can be vacuous: a violation ends the evaluation of its string early)
+        if rep.acc.viol_total == 0 && rep.acc.hist.get(style).copied().unwrap_or(0) == 0 {
             println!("MACHINERY-ERROR style {} was never offered: vacuous run", style);
             return 2;
         }
